@@ -477,3 +477,31 @@ package util
 //@   loop 2 frame
 //@   loop 3 frame
 //@   loop 4 frame
+
+// ---- parts of the AttachmentsMap API that no checker uses (package-level and field attachments): thin safety contracts
+//@ func PackageAttachments.AddAttachment
+//@   props C10
+//@   assigns t.LocalAttachments
+//@ func TypeAttachments.AddFieldAttachment
+//@   props C10
+//@   requires t.FieldsAttachments != nil ==> allocated(t.FieldsAttachments)
+//@   assigns t.FieldsAttachments, t.FieldsAttachments[all]
+//@   ensures t.FieldsAttachments != nil
+//@ func PackageAttachments.AddTypeFieldAttachment
+//@   props C10
+//@   requires t.TypesAttachments != nil ==> allocated(t.TypesAttachments)
+//@   requires allocated(t.TypesAttachments[typename].FieldsAttachments)
+//@   assigns t.TypesAttachments, t.TypesAttachments[all], t.TypesAttachments[typename].FieldsAttachments[all]
+//@   ensures t.TypesAttachments != nil
+//@ func AttachmentsMap.AddPkgAttachment
+//@   props C10
+//@   requires t.packageAttachments != nil ==> allocated(t.packageAttachments)
+//@   assigns t.packageAttachments, t.packageAttachments[all]
+//@   ensures t.packageAttachments != nil
+//@ func AttachmentsMap.AddPkgTypeFieldAttachment
+//@   props C10
+//@   requires t.packageAttachments != nil ==> allocated(t.packageAttachments)
+//@   requires t.packageAttachments[pkg].TypesAttachments != nil ==> allocated(t.packageAttachments[pkg].TypesAttachments)
+//@   requires allocated(t.packageAttachments[pkg].TypesAttachments[typename].FieldsAttachments)
+//@   assigns t.packageAttachments, t.packageAttachments[all], t.packageAttachments[pkg].TypesAttachments[all], t.packageAttachments[pkg].TypesAttachments[typename].FieldsAttachments[all]
+//@   ensures t.packageAttachments != nil
